@@ -147,6 +147,9 @@ def rule_cl_all(ctx):
             clones = [c for c in ctx.calls(b) if c.name == "core::clone::Clone::clone" and c.unresolved]
             if not any(c.loc in s for c in clones) or P.loc not in s:
                 why.append("the inserted value is not T::clone of the element just yielded")
+            # the cloned main table has no headroom reserved for the copies: the insertion must be the growing one
+            if I.tname != HBT + "insert":
+                why.append("copies are inserted with %s, which assumes free room that the freshly cloned table need not have" % I.tname)
             # receiver: not a table of the source
             rp = I.arg_path(0)
             rr = ctx.role(b, rp)
